@@ -109,6 +109,18 @@ func (t *traceRec) migrated(x *runner, s *step, r *replica) {
 	t.emit(map[string]any{"ev": "MigratedRestart", "r": s.R, "i": s.I, "j": s.J, "st": specShape(x.w.project(r.acl), x.b.Accounts)})
 }
 
+func (t *traceRec) buildTampered(x *runner, s *step, r *replica) {
+	if t == nil {
+		return
+	}
+	a := s.A
+	if a == "" {
+		a = "o"
+	}
+	t.emit(map[string]any{"ev": "BuildTampered", "r": s.R, "k": s.K, "m": s.M, "kind": s.Kind, "other": s.Other, "a": a,
+		"cs": csJSON(s.Cs), "st": specShape(x.w.project(r.acl), x.b.Accounts)})
+}
+
 func (t *traceRec) tamper(x *runner, s *step, r *replica) {
 	if t == nil {
 		return
@@ -395,6 +407,30 @@ func (x *runner) randomStep(rng *rand.Rand) *step {
 			return &step{Act: "Tamper", R: r.name, Kind: "unaccepted", A: a, Cs: cs}
 		}
 	default:
+	}
+	// a list built from a log with a refusable record in place k
+	if rng.Intn(4) == 0 {
+		k := 1 + rng.Intn(n+1)
+		if k >= 2 && rng.Intn(3) == 0 {
+			if cs, a, ok := x.randomBad(rng, k-1); ok {
+				return &step{Act: "BuildTampered", R: r.name, K: k, M: k, Kind: "unaccepted", A: a, Cs: cs}
+			}
+		}
+		kind := pick(rng, []string{"byte", "id", "prevId", "authorSig", "acceptorSig", "nonHeadPrev"})
+		if k == 1 {
+			kind = "byte"
+		}
+		if k <= n && (kind != "acceptorSig" || r.cfg.Mode == "partial") {
+			s := &step{Act: "BuildTampered", R: r.name, K: k, M: k + rng.Intn(n-k+1), Kind: kind, A: "o"}
+			if kind == "prevId" || kind == "nonHeadPrev" {
+				if k < 2 {
+					return nil
+				}
+				s.Other = rng.Intn(k - 1)
+			}
+			return s
+		}
+		return nil
 	}
 	// a batch of accepted records with a refusable tail
 	if r.applied() < n && rng.Intn(3) > 0 {
